@@ -332,6 +332,8 @@ def instances(tier, seed):
                 if q and BOX_POOL.index((lo, hi)) == 6 and mode not in ('tight', 'tight=False'):
                     continue
                 for cons in ((None,) if (q or len(lo) > 1) else (None, 'pure')):      # (2-D boxes with extra constraints: >150k paths each)
+                    if kind == 'Powell' and mode == 'clip=False' and BOX_POOL.index((lo, hi)) in (4, 6):
+                        continue        # (redraws over a 1e20-wide / non-decimal side: exact-real counterexamples of rounding size do not replay on floats)
                     if kind in ('DE', 'DE2') and mode == 'clip=False' and (len(lo) > 1 or cons or BOX_POOL.index((lo, hi)) not in (0, 2, 6)):
                         continue        # (symbolic in-box redraws of every member: 10^5..10^6 paths each; three 1-D boxes are kept)
                     out.append(Instance('mode-step/%s/%s/box%d/%s' % (kind, mode, BOX_POOL.index((lo, hi)), cons or 'nocons'),
